@@ -77,14 +77,20 @@ Proof.
   destruct (String.eqb_spec c "lo.cholesky_jitter"); [contradiction | reflexivity].
 Qed.
 
+(* no class of the table is, or inherits from, the pseudo-class that holds the warning filter *)
+Lemma warn_free_now : warn_free gen_table = true.
+Proof. vm_compute. reflexivity. Qed.
+
 Lemma prog_ok_of_classes : forall p,
   (forall c, In c (prog_classes p) -> In c checked) -> prog_ok gen_table doc_composites doc_caches p = true.
 Proof.
   pose proof checked_ok as H. rewrite forallb_forall in H.
-  induction p as [|p1 IH1 p2 IH2|c args body IHb| |]; intros Hc; cbn [prog_ok]; try reflexivity.
+  induction p as [|p1 IH1 p2 IH2|c args body IHb| | |b body IHe|body IHt]; intros Hc; cbn [prog_ok]; try reflexivity.
   - rewrite IH1, IH2; [reflexivity| |]; intros c Hin; apply Hc; cbn; apply in_or_app; auto.
   - rewrite IHb by (intros c0 Hin; apply Hc; cbn; auto).
     rewrite andb_true_r. apply H. apply Hc. cbn. auto.
+  - rewrite warn_free_now. apply IHe. exact Hc.
+  - apply IHt. exact Hc.
 Qed.
 
 Lemma scoped_gen : forall p G G' o tr,
@@ -142,10 +148,12 @@ Qed.
 Lemma prog_ok0_of_classes : forall p,
   (forall c, In c (prog_classes p) -> In c checked0) -> prog_ok gen_table doc_composites nocache p = true.
 Proof.
-  induction p as [|p1 IH1 p2 IH2|c args body IHb| |]; intros Hc; cbn [prog_ok]; try reflexivity.
+  induction p as [|p1 IH1 p2 IH2|c args body IHb| | |b body IHe|body IHt]; intros Hc; cbn [prog_ok]; try reflexivity.
   - rewrite IH1, IH2; [reflexivity| |]; intros c Hin; apply Hc; cbn; apply in_or_app; auto.
   - rewrite IHb by (intros c0 Hin; apply Hc; cbn; auto).
     rewrite andb_true_r. apply checked0_ok. apply Hc. cbn. auto.
+  - rewrite warn_free_now. apply IHe. exact Hc.
+  - apply IHt. exact Hc.
 Qed.
 
 (* every query -- any class, any method, any arguments -- answers after the program as before it *)
@@ -169,6 +177,42 @@ Proof.
   intros c args body G G' o tr Hc Hr.
   exact (inner_generic gen_table doc_composites doc_caches c args body G G' o tr (prog_ok_of_classes body Hc) Hr).
 Qed.
+
+(* ------------------------------------------------------------------ failing with-headers *)
+(* a with-statement whose header fails (constructor or __enter__ raise: wrong arguments, an explicit raise,
+   or a warning that the filter in force turns into an exception) runs nothing and leaves the store untouched *)
+Lemma failed_entry_gen : forall c args body G,
+  In c checked -> enters gen_table c args G = false ->
+  run gen_table (PWith c args body) G = (G, ORaised, []).
+Proof.
+  intros c args body G Hc He. pose proof checked_ok as H. rewrite forallb_forall in H.
+  exact (failed_entry_inv gen_table doc_composites doc_caches c args body G (H c Hc) He).
+Qed.
+
+(* the hypothesis is met through the WARNING path: beta_features.checkpoint_kernel warns in __enter__; with
+   warnings escalated its header fails, with warnings ignored the same header completes *)
+Definition ex_ck : string := "bf.checkpoint_kernel".
+Lemma ex_ck_checked : In ex_ck checked.
+Proof.
+  apply repo_classes_checked; [apply mem_str_In; rewrite usable_now_eq; vm_compute; reflexivity | vm_compute; reflexivity].
+Qed.
+Lemma ex_ck_header :
+  enters gen_table ex_ck [("value", VK (KNum 5 1))] (escalate true (init_store gen_table)) = false /\
+  enters gen_table ex_ck [("value", VK (KNum 5 1))] (escalate false (init_store gen_table)) = true.
+Proof. vm_compute. split; reflexivity. Qed.
+(* with checkpoint_kernel(2): try: (warnings -> errors: with checkpoint_kernel(9): observe) except: pass; observe
+   -- the inner header raises, nothing is observed inside it, the outer block still shows 2, afterwards 0 *)
+Definition ex_prog_w : prog :=
+  PWith ex_ck [("value", VK (KNum 2 1))]
+    (PSeq (PTry (PEsc true (PWith ex_ck [("value", VK (KNum 9 1))] PObserve))) PObserve).
+Lemma ex_prog_w_checked : forall c, In c (prog_classes ex_prog_w) -> In c checked0.
+Proof.
+  intros c H. apply checked_checked0.
+  - destruct H as [H|[H|[]]]; subst c; exact ex_ck_checked.
+  - destruct H as [H|[H|[]]]; subst c; discriminate.
+Qed.
+Lemma ex_prog_w_runs : run_case ([(ex_ck, "value", [])], ex_prog_w) = [0; 1;  2; 2; 1;  2; 0; 1]%Z.
+Proof. vm_compute. reflexivity. Qed.
 
 (* ------------------------------------------------------------------ non-vacuity *)
 (* a nested program over two gpytorch classes that ends by an exception: its classes are checked, it
